@@ -30,6 +30,10 @@ def W():
         "failfan", {"s": V2, "flag": ["1", "0"]},
         {"top.do": [S(deps=["f", "h"])], "f.do": [S(deps=["s"], fail="flag")], "h.do": [S(deps=["s"], out="file")]},
         ["top", "f", "h"], ["top"])
+    w["failshared"] = World(   # two jobs need one target whose build fails: the second waits for its lock
+        "failshared", {"s": V2, "flag": ["1", "0"]},
+        {"a.do": [S(deps=["z"])], "b.do": [S(deps=["z"], out="file")], "z.do": [S(deps=["s"], fail="flag")]},
+        ["a", "b", "z"], ["a", "b"])
     return w
 
 
